@@ -45,6 +45,51 @@ def breaks_of(loop: ast.For) -> List[ast.Break]:
     return out
 
 
+def set_epoch_rule(rep: Report, R, E: str, clause: str):
+    """main_sampler.set_epoch(<epoch counter>) before every epoch's iteration (shared by C04 and C06)."""
+    fa, cfg, fi = R.fa, R.fa.cfg, R.fi
+    N, I = R.main_next, R.main_iter
+    # ---- 1. set_epoch ----------------------------------------------------------------------------------
+    rep.rule("G8.set_epoch", "main_sampler.set_epoch(<epoch counter>) lies on every path to each epoch's iteration of the "
+             "main sampler (first epoch and every later one), is guarded by nothing but the hasattr test, and its "
+             "argument is the epoch counter itself")
+    se = [(n, c) for n, c in fa.calls() if isinstance(c.func, ast.Attribute) and c.func.attr == "set_epoch"
+          and fa.sym.term(c.func.value, n) == ("self", "main_sampler")]
+    has_tests = [n for n, nd in cfg.nodes.items() if nd.kind == "test" and R.term_at(n) == (
+        "call", ("global", "hasattr"), (("self", "main_sampler"), ("const", "set_epoch")), ())]
+    if not se:
+        rep.bad("G8.set_epoch", fi, "announce", "the main sampler is never told the epoch (no set_epoch call)",
+                clause=clause)
+    else:
+        removed = [(n, cfg.out_edge(n, False), False) for n in has_tests if cfg.out_edge(n, False) is not None]
+        pc = cfg.pruned(removed)
+        nodes = {n for n, _ in se}
+        first = pc.must_pass(nodes, src=pc.entry, dst=I)
+        later = not pc.reachable(N, I, avoid=nodes)
+        inside = any(n in R.loop_body_nodes(N) for n in nodes)
+        rep.decide(first and later and not inside, "G8.set_epoch", fi, "announce-before-each-epoch",
+                   "set_epoch dominates the main iteration of the first and of every later epoch",
+                   ("first epoch can start without set_epoch; " if not first else "") +
+                   ("a later epoch can start without set_epoch; " if not later else "") +
+                   ("set_epoch is called inside the per-index loop" if inside else ""),
+                   line=R.line(se[0][0]), clause=clause)
+        for n, c in se:
+            t = fa.sym.term(c.args[0], n) if len(c.args) == 1 and not c.keywords else None
+            ok = t is not None and ((t[0] == "var" and t[1] == E) or t == ("self", "start_epoch"))
+            rep.decide(ok, "G8.set_epoch", fi, "argument", f"argument is the epoch counter '{E}'",
+                       f"argument {ast.unparse(c.args[0]) if c.args else '?'} is not the epoch counter '{E}' itself",
+                       line=R.line(n), clause=clause)
+            guards = [(t_, lab) for t_, lab in cfg.control_predicates(n)
+                      if cfg.nodes[t_].kind == "test" and t_ not in has_tests
+                      and not (isinstance(cfg.nodes[t_].ast, ast.Constant))]
+            rep.decide(not guards, "G8.set_epoch", fi, "unconditional",
+                       "guarded only by hasattr(main_sampler, 'set_epoch')",
+                       "additionally guarded by " + ", ".join(
+                           f"'{ast.unparse(cfg.nodes[t_].ast)}' (line {R.line(t_)})" for t_, _ in guards),
+                       line=R.line(n), clause=clause)
+
+
+
 def run(prog: Program, rep: Report, tier: str):
     R = Roles(prog, "_training_loop")
     fa, cfg, fi = R.fa, R.fa.cfg, R.fi
@@ -62,44 +107,7 @@ def run(prog: Program, rep: Report, tier: str):
     N, I = R.main_next, R.main_iter
     body = R.body_entry(N)
 
-    # ---- 1. set_epoch ----------------------------------------------------------------------------------
-    rep.rule("G8.set_epoch", "main_sampler.set_epoch(<epoch counter>) lies on every path to each epoch's iteration of the "
-             "main sampler (first epoch and every later one), is guarded by nothing but the hasattr test, and its "
-             "argument is the epoch counter itself")
-    se = [(n, c) for n, c in fa.calls() if isinstance(c.func, ast.Attribute) and c.func.attr == "set_epoch"
-          and fa.sym.term(c.func.value, n) == ("self", "main_sampler")]
-    has_tests = [n for n, nd in cfg.nodes.items() if nd.kind == "test" and R.term_at(n) == (
-        "call", ("global", "hasattr"), (("self", "main_sampler"), ("const", "set_epoch")), ())]
-    if not se:
-        rep.bad("G8.set_epoch", fi, "announce", "the main sampler is never told the epoch (no set_epoch call)",
-                clause="C04.1")
-    else:
-        removed = [(n, cfg.out_edge(n, False), False) for n in has_tests if cfg.out_edge(n, False) is not None]
-        pc = cfg.pruned(removed)
-        nodes = {n for n, _ in se}
-        first = pc.must_pass(nodes, src=pc.entry, dst=I)
-        later = not pc.reachable(N, I, avoid=nodes)
-        inside = any(n in R.loop_body_nodes(N) for n in nodes)
-        rep.decide(first and later and not inside, "G8.set_epoch", fi, "announce-before-each-epoch",
-                   "set_epoch dominates the main iteration of the first and of every later epoch",
-                   ("first epoch can start without set_epoch; " if not first else "") +
-                   ("a later epoch can start without set_epoch; " if not later else "") +
-                   ("set_epoch is called inside the per-index loop" if inside else ""),
-                   line=R.line(se[0][0]), clause="C04.1")
-        for n, c in se:
-            t = fa.sym.term(c.args[0], n) if len(c.args) == 1 and not c.keywords else None
-            ok = t is not None and ((t[0] == "var" and t[1] == E) or t == ("self", "start_epoch"))
-            rep.decide(ok, "G8.set_epoch", fi, "argument", f"argument is the epoch counter '{E}'",
-                       f"argument {ast.unparse(c.args[0]) if c.args else '?'} is not the epoch counter '{E}' itself",
-                       line=R.line(n), clause="C04.1")
-            guards = [(t_, lab) for t_, lab in cfg.control_predicates(n)
-                      if cfg.nodes[t_].kind == "test" and t_ not in has_tests
-                      and not (isinstance(cfg.nodes[t_].ast, ast.Constant))]
-            rep.decide(not guards, "G8.set_epoch", fi, "unconditional",
-                       "guarded only by hasattr(main_sampler, 'set_epoch')",
-                       "additionally guarded by " + ", ".join(
-                           f"'{ast.unparse(cfg.nodes[t_].ast)}' (line {R.line(t_)})" for t_, _ in guards),
-                       line=R.line(n), clause="C04.1")
+    set_epoch_rule(rep, R, E, clause="C04.1")
 
     # ---- update block & counters -----------------------------------------------------------------------------
     rep.rule("G8.counters", "the global sample counter and the in-epoch / in-update counters are incremented by exactly "
